@@ -4,7 +4,7 @@ import vlib, e2e
 from vlib import hx, unhx, case_line, show
 
 THEOREMS = ["C09_pods_want_exactly_their_members", "C09_run_position", "C09_members_spec", "C09_registered_spec", "C09_members_are_bound_to_their_pod",
-            "C09_table_along_the_run", "C09_member", "C09_errors", "C09_members_wired", "C09_slash_refuted"]
+            "C09_table_along_the_run", "C09_member", "C09_errors", "C09_members_wired", "C09_slash_refuted", "C09_pods_want_exactly_their_members_with_dropins", "C09_members_are_bound_to_their_pod_with_dropins", "C09_run_with_dropins_is", "C09_dropin_membership_example"]
 
 
 def gen_set(rng):
